@@ -123,37 +123,35 @@ def images_overlap(img):
 # ---------------------------------------------------------------------------------------------------
 # ppci's calling convention for riscv, read from the architecture object
 # ---------------------------------------------------------------------------------------------------
-def call_record(march, ptys, values):
-    """argument registers / stack words for a call f(values) with IR parameter types ptys: where
-    RiscvArch.determine_arg_locations puts them; an integer narrower than the register travels as its own
-    sign / zero extension"""
-    from ppci import ir
-    from ppci.arch.stack import StackLocation
+# (stated here as data, not read from the architecture object: a change of determine_arg_locations / callee_save is a
+# change of the convention the property speaks about.  RiscvArch documents: "pass args in R12-R17, return values in
+# R10"; further arguments go to memory at sp, sp + 4, ...; callee_save = x9, x18..x27, and the frame pointer x8.)
+ARG_REGS = (12, 13, 14, 15, 16, 17)
+RESULT_REG = 10
+KEEP_REGS = (8, 9, 18, 19, 20, 21, 22, 23, 24, 25, 26, 27)
 
-    arch = arch_of(march)
-    locs = arch.determine_arg_locations([getattr(ir, t) for t in ptys])
+
+def call_record(march, ptys, values):
+    """argument registers / stack words for a call f(values) with IR parameter types ptys; an integer narrower
+    than the register travels as its own sign / zero extension"""
     regs, stk = [], []
-    for loc, t, v in zip(locs, ptys, values):
+    free = list(ARG_REGS)
+    offset = 0
+    for t, v in zip(ptys, values):
         bits = int(t[1:])
         v &= (1 << bits) - 1
         if t[0] == "i" and v >> (bits - 1):
             v -= 1 << bits
-        if isinstance(loc, StackLocation):
-            stk.append([loc.offset, limbs(v, 4)])
+        if free:
+            regs.append([free.pop(0), limbs(v, 4)])
         else:
-            regs.append([loc.num, limbs(v, 4)])
+            stk.append([offset, limbs(v, 4)])
+            offset += bits // 8 if bits >= 32 else bits // 8
     return {"regs": regs, "stk": stk}
 
 
 def keep_regs(march):
-    arch = arch_of(march)
-    return sorted({r.num for r in arch.callee_save} | {arch.fp.num})
-
-
-def rv_reg(march, rty):
-    from ppci import ir
-
-    return arch_of(march).determine_rv_location(getattr(ir, rty)).num
+    return list(KEEP_REGS)
 
 
 # ---------------------------------------------------------------------------------------------------
